@@ -41,17 +41,30 @@ def _get_story_duration(story_tag: Element) -> Optional[float]:
     if payload is None:
         return
 
-    try:
-        return float(payload.find('StoryDuration').text)
-    except AttributeError:
-        pass
+    story_duration = payload.find('StoryDuration')
+    if story_duration is not None:
+        return _get_seconds(story_duration)
 
     text_time = payload.find('TextTime')
     media_time = payload.find('MediaTime')
     if text_time is not None or media_time is not None:
-        text_time = float(text_time.text) if text_time is not None else 0
-        media_time = float(media_time.text) if media_time is not None else 0
+        text_time = _get_seconds(text_time) if text_time is not None else 0
+        media_time = _get_seconds(media_time) if media_time is not None else 0
+        if text_time is None or media_time is None:
+            # a time that cannot be read makes the duration unknown
+            return
         return text_time + media_time
+
+
+def _get_seconds(tag: Element) -> Optional[float]:
+    """
+    Return the number of seconds given in a timing tag, or return None if its
+    text is not a number (e.g. an empty tag)
+    """
+    try:
+        return float(tag.text)
+    except (TypeError, ValueError):
+        return
 
 
 def _is_technical_note(p: Element) -> bool:
